@@ -200,8 +200,17 @@ def api_histories(run, n):
                            min_reporting=14)
         B = rng.choice([3, 5, 10])
         lists = [["postal_code"]]
+        finer = list(FINER)
+        if rng.random() < 0.5:
+            # a state-level office whose data also carry districts (e.g. a statewide race reported by congressional district): the
+            # district aggregate is then one more finer aggregate
+            e.pre["district"] = [rng.choice(["01", "02", "03"]) for _ in range(len(e.pre))]
+            finer.append("district")
         k = rng.randint(1, 3)
-        fin = rng.sample(FINER, k)
+        fin = rng.sample(finer, k)
+        if "district" in finer and "district" not in fin:
+            fin[0] = "district"
+        state_office_with_districts = "district" in finer
         for perm in rng.sample(list(itertools.permutations(["postal_code"] + fin)), min(3, math.factorial(k + 1))):
             lists.append(list(perm))
         contest_names = sorted(set(e.states) | set(e.cur["postal_code"]))
@@ -211,7 +220,8 @@ def api_histories(run, n):
             calls = {"lhs_called_contests": [e.states[0]]} if rng.random() < 0.5 else {"stop_model_call": [e.states[-1]]}
         alphas = [0.5, 0.9]
         results = []
-        case = {"api": True, "election": e.describe(), "B": B, "aggregate_lists": lists, "weights": nat, "calls": calls}
+        case = {"api": True, "election": e.describe(), "B": B, "aggregate_lists": lists, "weights": nat, "calls": calls,
+                "state_level_office_with_district_aggregate": state_office_with_districts}
         for aggs in lists:
             res = E.run_client(e, estimands=["margin"], alphas=alphas, pi_method="bootstrap", aggregates=aggs,
                                params=E.boot_params(B=B), features=["baseline_normalized_margin"], keep_client=True, extra=calls)
@@ -238,15 +248,17 @@ def api_histories(run, n):
             continue
         ref = results[0]["out"]
         for aggs, r in zip(lists, results):
+            # known finding KF-5: in a state-level election [postal_code, district] is taken for the contest level
+            kf5 = state_office_with_districts and "district" in aggs and aggs.index("district") > aggs.index("postal_code")
             if any(isinstance(o, dict) for o in r["out"]):
                 run.violation("the national summary fails because finer aggregates were also requested", input=case,
-                              impl={"aggregates": aggs, "result": r["out"]}, predicate="natsum_no_fail", signature="C08:history-fail",
-                              election=e.to_json())
+                              impl={"aggregates": aggs, "result": r["out"]}, predicate="natsum_no_fail",
+                              signature="KF-5" if kf5 else "C08:history-fail", election=e.to_json())
                 break
             if r["out"] != ref:
                 run.violation("the national summary changes with the list / order of requested aggregates", input=case,
                               impl={"aggregates": aggs, "result": r["out"]}, expected=ref, predicate="natsum_history_independent",
-                              signature="C08:history", election=e.to_json())
+                              signature="KF-5" if kf5 else "C08:history", election=e.to_json())
                 break
         else:
             # predicates on the reference output
